@@ -110,7 +110,19 @@ CLAIMED = {
 NOT_YET = "not claimed yet: machinery for this property is still under construction (build order in DESIGN.md §10)"
 
 
+OVERRIDE_NOTE = {
+    'C01': 'Other (conversions, Clone, Drop, Deref, Extend, FromIterator, IntoIterator of the handles)',
+    'C09': 'Read (Buf impls, IntoIter, Reader)', 'C10': 'Read (Buf impls: which getters / copy_to_* each type overrides)',
+    'C11': 'Write (BufMut impls, Writer, fmt::Write)', 'C12': 'Read + Write',
+    'C14': 'Cmp (no lt/le/gt/ge/ne overrides; eq / partial_cmp / cmp / hash / borrow only)', 'C15': 'Fmt (Debug / hex / Display impls, serde visitor methods)',
+}
+
+
 def main():
+    for pid, cls in OVERRIDE_NOTE.items():
+        CLAIMED[pid]['text'] += (f" T1 override inventory (round 8): the trait impls of the crate and the methods each defines itself are extracted from "
+                                f"src/ on every run and compared by `decide +kernel` with the reviewed list the models were written from — class {cls} "
+                                f"(Cert/Ov*.lean); a new or dropped override is a broken tie.")
     checks = []
     for pid in ALL:
         if pid in CLAIMED:
